@@ -2,7 +2,8 @@
    LOGIC PART served by Engine/CrashDefs.v: ONE build statement in isolation (any number of
    outputs, unbounded mtimes/ticks, restat / generator / deps in {none, depfile, gcc, msvc}, rspfile),
    the exact sequence of atomic persistence actions of StartEdge + the command + FinishCommand
-   ([run_actions]), a crash = any prefix, optionally with the next append torn ([crash]), the dirty
+   ([run_actions]; since the fix "record deps before the build log entry": ..., rspfile removal, deps
+   records, THEN the per-output build-log lines; [run_actions_old_order] = the order before it), a crash = any prefix, optionally with the next append torn ([crash]), the dirty
    test of the next scan ([next_run_dirty]), and Builder::Cleanup ([cleanup]).
    Not here: several statements at once (C01/C04), log recompaction (C08/C09), real signal timing and
    the exit status 130 (checked on the real binary).
@@ -24,43 +25,47 @@ Proof. exact prefix_redone. Qed.
 Print Assumptions C07_prefix_redone.
 
 (* Never built / an input edited since the last record / command changed (all entries stale):
-   dirty until the LAST log line is durable ... *)
+   dirty after EVERY strict prefix of the run, torn or not -- the last build-log line is the last
+   action ([commit_len] = length of the action list) *)
 Theorem C07_prefix_redone_all : forall c r ins st0 k torn,
   p_outs st0 <> [] ->
   forallb (log_stale c (mri_of (i_explicit ins) None)) (p_outs st0) = true ->
-  (k < logs_done_len c r st0)%nat ->
+  (k < commit_len c r st0)%nat ->
   next_run_dirty c ins (apply_all st0 (crash (run_actions c r st0) k torn)) = true.
 Proof. exact prefix_redone_all. Qed.
 Print Assumptions C07_prefix_redone_all.
 
-(* ... for deps=gcc/msvc statements then until the deps record of outputs_[0] is durable, PROVIDED
-   the old deps record is older than the output as the command left it ([deps_stale_after]; true
-   whenever the command rewrote outputs_[0]; FALSE for a restat command that left it alone: see
-   C07_restat_deps_lost_refuted) *)
-Theorem C07_prefix_redone_deps : forall c r ins st0 k torn,
-  uses_depslog c = true -> p_outs st0 <> [] ->
-  (cmd_done_len c r st0 <= k <= logs_done_len c r st0)%nat ->
-  deps_stale_after c r st0 ->
-  next_run_dirty c ins (apply_all st0 (crash (run_actions c r st0) k torn)) = true.
-Proof. exact prefix_redone_deps. Qed.
-Print Assumptions C07_prefix_redone_deps.
-
-(* both together: dirty at every crash point before the commit point, torn or not ... *)
-Theorem C07_prefix_redone_commit : forall c r ins st0 k torn,
-  p_outs st0 <> [] ->
-  forallb (log_stale c (mri_of (i_explicit ins) None)) (p_outs st0) = true ->
-  (uses_depslog c = true -> deps_stale_after c r st0) ->
-  (k < commit_len c r st0)%nat ->
-  next_run_dirty c ins (apply_all st0 (crash (run_actions c r st0) k torn)) = true.
-Proof. exact prefix_redone_commit. Qed.
-Print Assumptions C07_prefix_redone_commit.
-
-(* ... and the commit point is exact: from there on the persistent state is the final one (the
-   deps records of outputs_[1..] are never consulted by a scan) *)
 Theorem C07_commit_exact : forall c r st0 k, (commit_len c r st0 <= k)%nat ->
   apply_all st0 (firstn k (run_actions c r st0)) = apply_all st0 (run_actions c r st0).
 Proof. exact commit_exact. Qed.
 Print Assumptions C07_commit_exact.
+
+(* Deps before log lines: from the first build-log line on ([pre_len] actions precede it),
+   everything else this run persists is already final -- deps record, depfile, output files.
+   In particular once the LAST log line is durable all deps records of this run are. *)
+Theorem C07_deps_before_log_commit : forall c r st0 k torn, (pre_len c r st0 <= k)%nat ->
+  let st := apply_all st0 (crash (run_actions c r st0) k torn) in
+  let fin := apply_all st0 (run_actions c r st0) in
+  p_dlog st = p_dlog fin /\ p_depfile st = p_depfile fin
+  /\ map o_file (p_outs st) = map o_file (p_outs fin).
+Proof. exact deps_before_log_commit. Qed.
+Print Assumptions C07_deps_before_log_commit.
+
+(* If a crashed run leaves the statement clean although the entry of some output was stale before
+   it (the verdict does rest on this run), then the deps record on disk is the one this run
+   reported, and depfile and output files are the final ones. *)
+Theorem C07_clean_implies_deps_recorded : forall c r ins st0 i o k torn,
+  nth_error (p_outs st0) i = Some o ->
+  log_stale c (mri_of (i_explicit ins) None) o = true ->
+  let st := apply_all st0 (crash (run_actions c r st0) k torn) in
+  next_run_dirty c ins st = false ->
+  p_dlog st = (if uses_depslog c
+               then match after_cmd c r st0 with a :: _ => Some (stat a, r_deps r) | [] => p_dlog st0 end
+               else p_dlog st0)
+  /\ p_depfile st = p_depfile (apply_all st0 (run_actions c r st0))
+  /\ map o_file (p_outs st) = map o_file (after_cmd c r st0).
+Proof. exact clean_implies_deps_recorded. Qed.
+Print Assumptions C07_clean_implies_deps_recorded.
 
 (* General form (any reason of dirtiness): a clean verdict after a crash never rests on the
    unfinished run, only on the OLD record of the same command hash that is not older than any
@@ -81,20 +86,23 @@ Theorem C07_prefix_redone_literal_refuted :
 Proof. exact prefix_redone_literal_refuted. Qed.
 Print Assumptions C07_prefix_redone_literal_refuted.
 
-(* FINDING: restat + deps=gcc, output left alone by the command, process dies between the build-log
-   line and RecordDeps: clean next run, the newly discovered input 9 recorded nowhere *)
+(* FINDING about the order of the code BEFORE the fix (build-log lines, then deps records) and the
+   reason the order was changed: restat + deps=gcc, output left alone by the command, process dies
+   between the build-log line and RecordDeps: clean next run, the newly discovered input 9 recorded
+   nowhere.  (Under [run_actions] the same witness is dirty at every crash point:
+   C07_order_matters_old_order_loses_deps.) *)
 Theorem C07_restat_deps_lost_refuted :
   exists c r ins st0 k,
     forallb (log_stale c (mri_of (i_explicit ins) None)) (p_outs st0) = true /\
     run_ok r st0 /\ inputs_old ins r /\
-    (k < length (run_actions c r st0))%nat /\
-    let st := apply_all st0 (firstn k (run_actions c r st0)) in
+    (k < length (run_actions_old_order c r st0))%nat /\
+    let st := apply_all st0 (firstn k (run_actions_old_order c r st0)) in
     next_run_dirty c ins st = false /\
     p_dlog st = Some (5, [7%nat]) /\ p_depfile st = None /\ r_deps r = [7%nat; 9%nat] /\
     let ins' := mkIn (i_explicit ins) (fun h => if Nat.eqb h 9 then 50 else i_hdr ins h) in
     next_run_dirty c ins' st = false /\
-    next_run_dirty c ins' (apply_all st0 (run_actions c r st0)) = true.
-Proof. exact restat_deps_lost_refuted. Qed.
+    next_run_dirty c ins' (apply_all st0 (run_actions_old_order c r st0)) = true.
+Proof. exact restat_deps_lost_old_order_refuted. Qed.
 Print Assumptions C07_restat_deps_lost_refuted.
 
 (* the two hypotheses of the property text are necessary *)
@@ -137,16 +145,30 @@ Theorem C07_order_matters_log_first :
   map o_file (p_outs (apply_all st0 (firstn 2 (run_actions_log_first c r st0)))) = [Some (5, 1%N)].
 Proof. exact order_matters_log_first. Qed.
 
-Theorem C07_order_matters_deps_first :
+Theorem C07_order_matters_old_order_loses_deps :
+  let c := mkCfg 77 true false DGcc false in
+  let ins := mkIn [8] (fun _ => 2) in
+  let st0 := mkP [mkO (Some (5, 100%N)) (Some (77%N, 5))] (Some (5, [7%nat])) None false false in
+  let r := mkRun 10 [(100%N, 11)] [7%nat; 9%nat] 0 in
+  next_run_dirty c ins st0 = true /\
+  dirty_upto c ins st0 (run_actions c r st0) (length (run_actions c r st0)) = true /\
+  p_dlog (apply_all st0 (run_actions c r st0)) = Some (5, [7%nat; 9%nat]) /\
+  (4 < length (run_actions_old_order c r st0))%nat /\
+  next_run_dirty c ins (apply_all st0 (firstn 4 (run_actions_old_order c r st0))) = false /\
+  p_dlog (apply_all st0 (firstn 4 (run_actions_old_order c r st0))) = Some (5, [7%nat]).
+Proof. exact order_matters_old_order_loses_deps. Qed.
+
+(* benign under the order of the code: deps log lost, build log valid -- clean as soon as the deps
+   record is rewritten, on the strength of the old valid entries (C07_prefix_trust_is_old) *)
+Theorem C07_deps_first_benign :
   let c := mkCfg 77 false false DGcc false in
   let ins := mkIn [3] (fun _ => 2) in
   let st0 := mkP [mkO (Some (5, 100%N)) (Some (77%N, 5))] None None false false in
   let r := mkRun 10 [(100%N, 11)] [7%nat] 0 in
-  next_run_dirty c ins st0 = true /\
-  dirty_upto c ins st0 (run_actions c r st0) (length (run_actions c r st0)) = true /\
-  (5 < length (run_actions_deps_first c r st0))%nat /\
-  next_run_dirty c ins (apply_all st0 (firstn 5 (run_actions_deps_first c r st0))) = false.
-Proof. exact order_matters_deps_first. Qed.
+  next_run_dirty c ins st0 = true /\ (5 < length (run_actions c r st0))%nat /\
+  next_run_dirty c ins (apply_all st0 (firstn 5 (run_actions c r st0))) = false /\
+  p_dlog (apply_all st0 (firstn 5 (run_actions c r st0))) = Some (11, [7%nat]).
+Proof. exact deps_first_benign. Qed.
 
 (* ------------------------------------------------------------------ C07_interrupt_cleanup *)
 (* after Cleanup: every output is gone or has its scan-time mtime; none exists, nor the depfile, for
@@ -205,21 +227,18 @@ Example C07_hypotheses_nonvacuous :
   next_run_dirty ex_cfg ex_ins ex_st0 = true /\
   forallb (log_stale ex_cfg (mri_of (i_explicit ex_ins) None)) (p_outs ex_st0) = true /\
   p_outs ex_st0 <> [] /\ run_ok ex_run ex_st0 /\ inputs_old ex_ins ex_run /\
-  uses_depslog ex_cfg = true /\ deps_stale_after ex_cfg ex_run ex_st0 /\
+  uses_depslog ex_cfg = true /\
   Forall (fun w => r_start ex_run < snd w) (r_writes ex_run) /\
   Forall (fun o0 => stat o0 <= r_start ex_run) (p_outs ex_st0).
 Proof. exact ex_hyps. Qed.
 
-(* ... its 11 actions: dirty at the crash points 0..9 (torn or not), clean from the commit point 10 *)
+(* ... its 11 actions: dirty at every crash point 0..10 (torn or not), clean after the 11th *)
 Example C07_prefix_redone_nonvacuous :
   length (run_actions ex_cfg ex_run ex_st0) = 11%nat /\
-  dirty_upto ex_cfg ex_ins ex_st0 (run_actions ex_cfg ex_run ex_st0) 10 = true /\
-  next_run_dirty ex_cfg ex_ins (apply_all ex_st0 (firstn 10 (run_actions ex_cfg ex_run ex_st0))) = false /\
+  commit_len ex_cfg ex_run ex_st0 = 11%nat /\ pre_len ex_cfg ex_run ex_st0 = 9%nat /\
+  dirty_upto ex_cfg ex_ins ex_st0 (run_actions ex_cfg ex_run ex_st0) 11 = true /\
   next_run_dirty ex_cfg ex_ins (apply_all ex_st0 (run_actions ex_cfg ex_run ex_st0)) = false.
 Proof. exact ex_all_crash_points. Qed.
-
-Example C07_commit_len_nonvacuous : commit_len ex_cfg ex_run ex_st0 = 10%nat.
-Proof. vm_compute. reflexivity. Qed.
 
 (* ... interrupted at each of the 6 points of its command phase *)
 Example C07_interrupt_nonvacuous :
